@@ -22,6 +22,13 @@
 (*        variadic parameter                                               *)
 (*   <<"call",callee,<<arg..>>>>     (callee first, then args left→right)  *)
 (*   <<"assert",e>>                                                        *)
+(*   <<"dot",x,<<k..>>>>    the dot path x.k1.k2: the variable x (looked up  *)
+(*        lexically like any variable) holds a hash; the value is            *)
+(*        (hget (hget x 'k1) 'k2)                                            *)
+(*   <<"setdot",x,<<k..>>,e>>   (set x.k1.k2 e): hset on the hash reached    *)
+(*        through the variable x                                             *)
+(*   <<"ehash">>            the empty hash literal {}: a new hash per        *)
+(*        evaluation, as (hash)                                              *)
 (*                                                                         *)
 (* Values: <<"int",n>> <<"str",s>> <<"bool",b>> <<"nil">> <<"sym",x>>      *)
 (*   <<"list",<<v..>>>> (the empty list is nil) <<"arr",<<v..>>>>          *)
@@ -32,7 +39,10 @@
 (*   <<"href",id>> a hash: a heap object holding <<key,value>> pairs in    *)
 (*   first-insertion order (hset, hdel, hget, keys, hpair, len)            *)
 (*                                                                         *)
-(* State: [fr, clo, thk, obj, fx, fuel, calls, failAt].  Frames are heap objects          *)
+(* State: [fr, clo, thk, obj, fx, fuel, calls, failAt, devs, used].  devs: the named        *)
+(* deviations (known open findings of the implementation) this evaluation reproduces, used:  *)
+(* those that actually changed something; the reference semantics is devs = {}.              *)
+(* Frames are heap objects          *)
 (* [vars, parent] so that closures share and outlive activations.          *)
 (* A result is [k, v, s] with k in                                         *)
 (*   "val" | "err" | "brk" | "cnt" (v = label) | "oof" (fuel exhausted) |  *)
@@ -116,7 +126,7 @@ DefIn(s, f, x, v) ==
          ELSE ErrR("type", s)
     ELSE Val(v, Bind(s, f, x, v))
 
-Builtins == {"+", "-", "*", "/", "mod", "==", "!=", "<", ">", "<=", ">=", "not",
+Builtins == {"+", "-", "*", "/", "mod", "**", "==", "!=", "<", ">", "<=", ">=", "not",
              "list", "cons", "first", "rest", "len", "append", "concat", "aget", "array",
              "trace", "tr", "map", "apply", "fail", "force", "substitute", "str", "hash", "hget", "hset", "keys",
              "null?", "empty?", "second", "aset", "hdel", "hpair"}
@@ -131,23 +141,43 @@ FoldArith(op, acc, rest) ==
                   ELSE IF op = "-" THEN acc - rest[1][2] ELSE acc * rest[1][2]
          IN IF n > MaxInt \/ n < -MaxInt THEN MaxInt + 1 ELSE FoldArith(op, n, Tail(rest))
 
-RECURSIVE ValEqS(_, _, _)
-ValEqS(a, b, s) ==      \* structural equality on data of the same kind
-    IF IsArr(a) /\ IsArr(b)
-    THEN LET x == Elems(a, s) y == Elems(b, s) IN
-         Len(x) = Len(y) /\ \A i \in 1..Len(x) : ValEqS(x[i], y[i], s)
-    ELSE IF a[1] # b[1] THEN FALSE
-    ELSE IF a[1] = "list"
-         THEN Len(a[2]) = Len(b[2]) /\ \A i \in 1..Len(a[2]) : ValEqS(a[2][i], b[2][i], s)
-         ELSE a = b
-KindOf(v) == IF IsArr(v) THEN "arr" ELSE v[1]
-
-SeqOf(v, s) == IF v = Nil THEN <<>> ELSE Elems(v, s)   \* elements of a list or array
-
 (* hashes: keys are symbols, strings and integers (other key kinds are not modelled) *)
 KeyOk(k) == k[1] \in {"sym", "str", "int"}
 HIdx(pairs, k) == IF \E i \in 1..Len(pairs) : pairs[i][1] = k
                   THEN CHOOSE i \in 1..Len(pairs) : pairs[i][1] = k ELSE 0
+
+(* the kinds == and != are defined on: nil is the empty list, so nil and lists are one kind *)
+KindOf(v) == IF IsArr(v) THEN "arr" ELSE IF v[1] = "href" THEN "hash" ELSE IF v[1] \in {"nil", "list"} THEN "list" ELSE v[1]
+EqKinds == {"int", "str", "bool", "sym", "list", "arr", "hash"}
+
+RECURSIVE ValEqS(_, _, _), EqDefined(_, _, _)
+ValEqS(a, b, s) ==      \* structural equality on data of the same kind
+    IF IsArr(a) /\ IsArr(b)
+    THEN LET x == Elems(a, s) y == Elems(b, s) IN
+         Len(x) = Len(y) /\ \A i \in 1..Len(x) : ValEqS(x[i], y[i], s)
+    ELSE IF a[1] = "href" /\ b[1] = "href"      \* the same keys (in any order) with equal values
+    THEN LET x == s.obj[a[2]].e y == s.obj[b[2]].e IN
+         Len(x) = Len(y) /\ \A i \in 1..Len(x) : HIdx(y, x[i][1]) # 0 /\ ValEqS(x[i][2], y[HIdx(y, x[i][1])][2], s)
+    ELSE IF a[1] # b[1] THEN FALSE        \* also nil (the empty list) against a list, which has elements
+    ELSE IF a[1] = "list"
+         THEN Len(a[2]) = Len(b[2]) /\ \A i \in 1..Len(a[2]) : ValEqS(a[2][i], b[2][i], s)
+         ELSE a = b
+(* equality is defined when every pair of corresponding parts is of one kind (what comparing an   *)
+(* integer with a string inside two arrays means is left open, as it is at the top)                 *)
+EqDefined(a, b, s) ==
+    IF KindOf(a) # KindOf(b) \/ KindOf(a) \notin EqKinds THEN FALSE
+    ELSE IF IsArr(a)
+    THEN LET x == Elems(a, s) y == Elems(b, s) IN
+         \A i \in 1..(IF Len(x) < Len(y) THEN Len(x) ELSE Len(y)) : EqDefined(x[i], y[i], s)
+    ELSE IF a[1] = "href"
+    THEN LET x == s.obj[a[2]].e y == s.obj[b[2]].e IN
+         \A i \in 1..Len(x) : HIdx(y, x[i][1]) = 0 \/ EqDefined(x[i][2], y[HIdx(y, x[i][1])][2], s)
+    ELSE IF a[1] = "list" /\ b[1] = "list"
+    THEN \A i \in 1..(IF Len(a[2]) < Len(b[2]) THEN Len(a[2]) ELSE Len(b[2])) : EqDefined(a[2][i], b[2][i], s)
+    ELSE TRUE
+
+SeqOf(v, s) == IF v = Nil THEN <<>> ELSE Elems(v, s)   \* elements of a list or array
+
 HPut(pairs, k, v) == LET i == HIdx(pairs, k) IN
                      IF i # 0 THEN [pairs EXCEPT ![i] = <<k, v>>] ELSE Append(pairs, <<k, v>>)
 HDrop(pairs, k) == LET i == HIdx(pairs, k) IN
@@ -176,6 +206,12 @@ Pure(name, a, s) ==
          ELSE IF a[2][2] = 0 THEN ErrR("div0", s)
          ELSE IF a[1][2] % a[2][2] = 0 /\ a[1][2] >= 0 /\ a[2][2] > 0 THEN Val(I(a[1][2] \div a[2][2]), s)
          ELSE Res("undef", "inexact-or-negative-division", s)
+    [] name = "**" ->     \* integer power, defined for a non-negative exponent while the result is small
+         IF n # 2 THEN Res("undef", "pow-arity", s)
+         ELSE IF ~AllInts(a) THEN (IF \E i \in 1..n : a[i][1] \notin {"int", "flt", "chr"} THEN ErrR("type", s) ELSE Res("undef", "float", s))
+         ELSE IF a[2][2] < 0 \/ a[2][2] > 20 THEN Res("undef", "pow-exponent", s)
+         ELSE LET r == FoldArith("*", 1, [i \in 1..a[2][2] |-> a[1]]) IN
+              IF r > MaxInt THEN Res("undef", "overflow", s) ELSE Val(I(r), s)
     [] name = "mod" ->
          IF n # 2 THEN ErrR("arity", s)
          ELSE IF ~AllInts(a) THEN Res("undef", "mod-type", s)
@@ -189,7 +225,7 @@ Pure(name, a, s) ==
                   r == CASE name = "==" -> x = y [] name = "!=" -> x # y [] name = "<" -> x < y
                          [] name = ">" -> x > y [] name = "<=" -> x <= y [] name = ">=" -> x >= y
               IN Val(B(r), s)
-         ELSE IF name \in {"==", "!="} /\ KindOf(a[1]) = KindOf(a[2]) /\ KindOf(a[1]) \in {"str", "bool", "sym", "nil", "list", "arr"}
+         ELSE IF name \in {"==", "!="} /\ EqDefined(a[1], a[2], s)
               THEN Val(B(IF name = "==" THEN ValEqS(a[1], a[2], s) ELSE ~ValEqS(a[1], a[2], s)), s)
          ELSE Res("undef", "compare-kinds", s)
     [] name = "not" ->
@@ -237,7 +273,8 @@ Pure(name, a, s) ==
     [] name = "concat" ->            \* a new array / string / list
          IF n >= 1 /\ \A i \in 1..n : IsArr(a[i]) THEN AllocArr(ConcatAll(a, 1, <<>>, s), s)
          ELSE IF n >= 1 /\ \A i \in 1..n : a[i][1] = "str" THEN Val(<<"str", ConcatStrs(a, 1, "")>>, s)
-         ELSE IF n = 2 /\ a[1][1] = "list" /\ a[2][1] = "list" THEN Val(<<"list", a[1][2] \o a[2][2]>>, s)
+         ELSE IF n >= 1 /\ \A i \in 1..n : a[i][1] \in {"nil", "list"}      \* nil is the empty list
+              THEN Val(MkList(ConcatAll([i \in 1..n |-> <<"list", SeqOf(a[i], s)>>], 1, <<>>, s)), s)
          ELSE IF n >= 1 /\ (IsArr(a[1]) \/ a[1][1] = "str") THEN ErrR("type", s)
          ELSE Res("undef", "concat", s)
     [] name \in {"aget", "hget"} /\ (n < 1 \/ ~(a[1][1] = "href")) ->
@@ -309,9 +346,37 @@ Datum(e) ==
            IF \E i \in 1..Len(parts) : parts[i] = <<"undef">> THEN <<"undef">> ELSE <<"list", parts>>
       [] OTHER -> <<"undef">>
 
+(* ---------------- state, and what is refused when a text is compiled ---------------- *)
+InitState(fuel, failAt) ==
+    [fr |-> << [vars |-> <<>>, parent |-> 0] >>, clo |-> <<>>, thk |-> <<>>, obj |-> <<>>, fx |-> <<>>,
+     fuel |-> fuel, calls |-> 0, failAt |-> failAt, devs |-> {}, used |-> {}]
+DevOn(s, id) == id \in s.devs
+UseDev(s, id) == [s EXCEPT !.used = @ \cup {id}]
+
+(* break/continue outside a loop (or naming a label no enclosing loop has) is refused when the text *)
+(* is compiled, before anything of it runs: FreeJump(e, labels) with labels the set of labels of     *)
+(* the enclosing loops ("" stands for "some loop")                                                   *)
+RECURSIVE FreeJump(_, _), FreeJumpSeq(_, _)
+FreeJumpSeq(es, L) == \E i \in 1..Len(es) : FreeJump(es[i], L)
+FreeJump(e, L) ==
+    CASE e[1] \in {"break", "continue"} -> IF e[2] = "" THEN L = {} ELSE e[2] \notin L
+      [] e[1] \in {"int", "str", "bool", "nil", "flt", "chr", "sym", "quote"} -> FALSE
+      [] e[1] \in {"def", "set"} -> FreeJump(e[3], L)
+      [] e[1] = "setdot" -> FreeJump(e[4], L)
+      [] e[1] \in {"arr", "scope", "begin", "and", "or"} -> FreeJumpSeq(e[2], L)
+      [] e[1] \in {"let", "letseq"} -> (\E i \in 1..Len(e[2]) : FreeJump(e[2][i][2], L)) \/ FreeJumpSeq(e[3], L)
+      [] e[1] = "cond" -> (\E i \in 1..Len(e[2]) : FreeJump(e[2][i][1], L) \/ FreeJump(e[2][i][2], L)) \/ FreeJump(e[3], L)
+      [] e[1] = "for" -> LET L2 == L \cup {"", e[2]} IN
+                         FreeJump(e[3], L2) \/ FreeJump(e[4], L2) \/ FreeJump(e[5], L2) \/ FreeJumpSeq(e[6], L2)
+      [] e[1] = "fn" -> FreeJumpSeq(e[4], L)
+      [] e[1] = "defn" -> FreeJumpSeq(e[5], L)
+      [] e[1] = "call" -> FALSE      \* callee and arguments are compiled when the call runs: what they hold is met then
+      [] e[1] \in {"assert", "eval"} -> FALSE
+      [] OTHER -> FALSE
+
 (* ---------------- the evaluator ---------------- *)
 RECURSIVE EvT(_, _, _), EvTSeq(_, _, _, _, _)
-RECURSIVE Ev(_, _, _), EvSeq(_, _, _, _), EvArgs(_, _, _, _, _, _), Call(_, _, _), Loop(_, _, _),
+RECURSIVE Ev(_, _, _), EvSeq(_, _, _, _), EvArgsC(_, _, _, _, _, _, _), EvLetSeq(_, _, _, _, _), DotGet(_, _, _, _), DotSet(_, _, _, _, _), Call(_, _, _), Loop(_, _, _),
           EvBind(_, _, _, _, _), EvCond(_, _, _, _), EvShort(_, _, _, _, _), MapOver(_, _, _, _, _),
           Force(_, _)
 
@@ -321,20 +386,25 @@ EvSeq(body, i, f, s) ==
     ELSE LET r == Ev(body[i], f, s) IN
          IF ~IsVal(r) \/ i = Len(body) THEN r ELSE EvSeq(body, i + 1, f, r.s)
 
-(* arguments left to right; lazy positions (mask) are wrapped, not evaluated *)
-EvArgs(args, i, acc, mask, f, s) ==
+(* arguments left to right; lazy positions (mask) are wrapped, not evaluated.  A break or       *)
+(* continue met while an argument is evaluated leaves the call as it leaves any other form: *)
+(* the arguments evaluated so far are dropped, the call is not made.                         *)
+(* Deviation "jump-in-argument" (open finding): the interpreter compiles the arguments of a   *)
+(* call one by one when the call runs, each on its own, knowing nothing of the loops around   *)
+(* the call; an argument that holds a break/continue of an enclosing loop is refused at that  *)
+(* moment (after the callee and the earlier arguments were evaluated) with an error.  Array   *)
+(* literals (call = FALSE) are compiled in line and are not affected.                          *)
+EvArgsC(args, i, acc, mask, f, s, call) ==
     IF i > Len(args) THEN Val(acc, s)
     ELSE IF i <= Len(mask) /\ mask[i]
          THEN LET id == Len(s.thk) + 1
                   s1 == [s EXCEPT !.thk = Append(s.thk, [e |-> args[i], f |-> f, done |-> FALSE, v |-> Nil])]
-              IN EvArgs(args, i + 1, Append(acc, <<"lazy", id>>), mask, f, s1)
+              IN EvArgsC(args, i + 1, Append(acc, <<"lazy", id>>), mask, f, s1, call)
+         ELSE IF call /\ DevOn(s, "jump-in-argument") /\ FreeJump(args[i], {})
+         THEN ErrR("jump-in-argument", UseDev(s, "jump-in-argument"))
          ELSE LET r == Ev(args[i], f, s) IN
-              (* the interpreter evaluates call arguments by re-entering the VM: a  *)
-              (* break/continue cannot leave an argument expression (it is refused  *)
-              (* when the argument is compiled); the reference semantics leaves    *)
-              (* such programs undefined                                            *)
-              IF r.k \in {"brk", "cnt"} THEN Res("undef", "jump-out-of-argument", r.s)
-              ELSE IF ~IsVal(r) THEN r ELSE EvArgs(args, i + 1, Append(acc, r.v), mask, f, r.s)
+              IF ~IsVal(r) THEN r ELSE EvArgsC(args, i + 1, Append(acc, r.v), mask, f, r.s, call)
+EvArgs(args, i, acc, mask, f, s) == EvArgsC(args, i, acc, mask, f, s, TRUE)
 
 (* force a lazy argument: evaluate once, in the frame where it was written *)
 Force(v, s) ==
@@ -354,9 +424,9 @@ Call(fv, a, s) ==
     IF fv[1] = "bi" THEN
         CASE fv[2] = "map" ->
                IF Len(a) # 2 THEN Res("undef", "map-arity", s)
-               ELSE IF a[2] = Nil THEN Res("undef", "map-over-nil", s)   \* the interpreter refuses nil although nil is the empty list
-               ELSE IF ~IsSeqV(a[2]) THEN ErrR("type", s)
                ELSE IF a[1][1] \notin {"clo", "bi"} THEN ErrR("type", s)
+               ELSE IF a[2] = Nil THEN Val(Nil, s)        \* nil is the empty list: nothing to apply the function to
+               ELSE IF ~IsSeqV(a[2]) THEN ErrR("type", s)
                ELSE MapOver(a[1], <<a[2][1], Elems(a[2], s)>>, 1, <<>>, s)
           [] fv[2] = "apply" ->
                IF Len(a) # 2 THEN Res("undef", "apply-arity", s)
@@ -391,15 +461,26 @@ MapOver(fv, coll, i, acc, s) ==
     ELSE LET r == Call(fv, <<coll[2][i]>>, s) IN
          IF ~IsVal(r) THEN r ELSE MapOver(fv, coll, i + 1, Append(acc, r.v), r.s)
 
-(* let: all right-hand sides first (in the new frame), then bind; letseq: one at a time *)
+(* let: the right-hand sides are outside the scope of the names the let binds: all of them are   *)
+(* evaluated, left to right, in the frame of the let form itself; then a fresh frame gets the    *)
+(* bindings and the body runs in it.  A closure made in a right-hand side therefore closes over  *)
+(* the bindings that were in scope where it was written, not over the ones this let adds.         *)
 EvBind(seqmode, bs, i, f, st) ==      \* st = [s, vals]
     IF i > Len(bs) THEN Val(st.vals, st.s)
     ELSE LET r == Ev(bs[i][2], f, st.s) IN
          IF ~IsVal(r) THEN r
-         ELSE IF seqmode
-              THEN LET d == DefIn(r.s, f, bs[i][1], r.v) IN
-                   IF ~IsVal(d) THEN d ELSE EvBind(seqmode, bs, i + 1, f, [s |-> d.s, vals |-> st.vals])
-              ELSE EvBind(seqmode, bs, i + 1, f, [s |-> r.s, vals |-> Append(st.vals, r.v)])
+         ELSE EvBind(seqmode, bs, i + 1, f, [s |-> r.s, vals |-> Append(st.vals, r.v)])
+
+(* letseq: the scope of a name is what follows its binding (the later right-hand sides and the    *)
+(* body): every binding opens a frame of its own inside the previous one, so a later binding of   *)
+(* the same name shadows the earlier one for what follows it and for nothing else.                 *)
+EvLetSeq(bs, i, f, s, body) ==
+    IF i > Len(bs)
+    THEN (IF Len(bs) = 0 THEN LET s1 == NewFrame(s, f) IN EvSeq(body, 1, TopId(s1), s1) ELSE EvSeq(body, 1, f, s))
+    ELSE LET r == Ev(bs[i][2], f, s) IN
+         IF ~IsVal(r) THEN r
+         ELSE LET s1 == NewFrame(r.s, f) g == TopId(s1) IN
+              EvLetSeq(bs, i + 1, g, Bind(s1, g, bs[i][1], r.v), body)
 
 RECURSIVE BindAll(_, _, _, _, _)
 BindAll(bs, vals, i, f, s) ==         \* bindings are popped in reverse order
@@ -436,6 +517,18 @@ Loop(e, ph, fs) ==
                 [] b.k = "cnt" /\ (b.v = "" \/ b.v = e[2]) -> Loop(e, "step", <<f, b.s>>)
                 [] OTHER -> b
 
+(* dot paths: v is the value reached so far, ks the keys (symbols) still to follow *)
+DotGet(v, ks, i, s) ==
+    IF i > Len(ks) THEN Val(v, s)
+    ELSE IF v[1] # "href" THEN Res("undef", "dot-on-non-hash", s)
+    ELSE LET pairs == s.obj[v[2]].e j == HIdx(pairs, <<"sym", ks[i]>>) IN
+         IF j = 0 THEN ErrR("nokey", s) ELSE DotGet(pairs[j][2], ks, i + 1, s)
+DotSet(v, ks, i, new, s) ==       \* the value of the form is the value assigned, as for set
+    IF v[1] # "href" THEN Res("undef", "dot-on-non-hash", s)
+    ELSE LET pairs == s.obj[v[2]].e j == HIdx(pairs, <<"sym", ks[i]>>) IN
+         IF i = Len(ks) THEN Val(new, [s EXCEPT !.obj[v[2]].e = HPut(@, <<"sym", ks[i]>>, new)])
+         ELSE IF j = 0 THEN ErrR("nokey", s) ELSE DotSet(pairs[j][2], ks, i + 1, new, s)
+
 Ev(e, f, s0) ==
   IF s0.fuel <= 0 THEN Res("oof", Nil, s0) ELSE
   LET s == [s0 EXCEPT !.fuel = s0.fuel - 1] IN
@@ -447,7 +540,7 @@ Ev(e, f, s0) ==
          ELSE ErrR("unbound", s)
     [] e[1] = "quote" -> Val(e[2], s)
     [] e[1] = "arr" ->
-         LET r == EvArgs(e[2], 1, <<>>, <<>>, f, s) IN
+         LET r == EvArgsC(e[2], 1, <<>>, <<>>, f, s, FALSE) IN
          IF ~IsVal(r) THEN r ELSE AllocArr(r.v, r.s)
     [] e[1] = "def" ->
          LET r == Ev(e[3], f, s) IN IF ~IsVal(r) THEN r ELSE DefIn(r.s, f, e[2], r.v)
@@ -456,14 +549,23 @@ Ev(e, f, s0) ==
          IF ~IsVal(r) THEN r
          ELSE LET g == FindFrame(r.s, f, e[2]) IN
               IF g # 0 THEN Val(r.v, Bind(r.s, g, e[2], r.v)) ELSE DefIn(r.s, f, e[2], r.v)
-    [] e[1] \in {"let", "letseq"} ->
-         LET s1 == NewFrame(s, f)
-             g == TopId(s1)
-             r == EvBind(e[1] = "letseq", e[2], 1, g, [s |-> s1, vals |-> <<>>])
+    [] e[1] = "let" ->
+         LET r == EvBind(FALSE, e[2], 1, f, [s |-> s, vals |-> <<>>])
          IN IF ~IsVal(r) THEN r
-            ELSE IF e[1] = "letseq" THEN EvSeq(e[3], 1, g, r.s)
-            ELSE LET b == BindAll(e[2], r.v, Len(e[2]), g, r.s) IN
+            ELSE LET s1 == NewFrame(r.s, f)
+                     g == TopId(s1)
+                     b == BindAll(e[2], r.v, Len(e[2]), g, s1) IN
                  IF ~IsVal(b) THEN b ELSE EvSeq(e[3], 1, g, b.s)
+    [] e[1] = "letseq" -> EvLetSeq(e[2], 1, f, s, e[3])
+    [] e[1] = "dot" ->
+         LET g == FindFrame(s, f, e[2]) IN
+         IF g = 0 THEN ErrR("unbound", s) ELSE DotGet(s.fr[g].vars[e[2]], e[3], 1, s)
+    [] e[1] = "setdot" ->
+         LET r == Ev(e[4], f, s) IN
+         IF ~IsVal(r) THEN r
+         ELSE LET g == FindFrame(r.s, f, e[2]) IN
+              IF g = 0 THEN ErrR("unbound", r.s) ELSE DotSet(r.s.fr[g].vars[e[2]], e[3], 1, r.v, r.s)
+    [] e[1] = "ehash" -> AllocHash(<<>>, s)
     [] e[1] = "scope" ->
          IF Len(e[2]) = 0 THEN Val(Nil, s)
          ELSE LET s1 == NewFrame(s, f) IN EvSeq(e[2], 1, TopId(s1), s1)
@@ -529,35 +631,13 @@ EvT(t, f, s) ==
       [] OTHER -> Res("undef", "template", s)
 
 (* ---------------- running a program ---------------- *)
-InitState(fuel, failAt) ==
-    [fr |-> << [vars |-> <<>>, parent |-> 0] >>, clo |-> <<>>, thk |-> <<>>, obj |-> <<>>, fx |-> <<>>,
-     fuel |-> fuel, calls |-> 0, failAt |-> failAt]
-
-(* break/continue outside a loop (or naming a label no enclosing loop has) is refused when the text *)
-(* is compiled, before anything of it runs: FreeJump(e, labels) with labels the set of labels of     *)
-(* the enclosing loops ("" stands for "some loop")                                                   *)
-RECURSIVE FreeJump(_, _), FreeJumpSeq(_, _)
-FreeJumpSeq(es, L) == \E i \in 1..Len(es) : FreeJump(es[i], L)
-FreeJump(e, L) ==
-    CASE e[1] \in {"break", "continue"} -> IF e[2] = "" THEN L = {} ELSE e[2] \notin L
-      [] e[1] \in {"int", "str", "bool", "nil", "flt", "chr", "sym", "quote"} -> FALSE
-      [] e[1] \in {"def", "set"} -> FreeJump(e[3], L)
-      [] e[1] \in {"arr", "scope", "begin", "and", "or"} -> FreeJumpSeq(e[2], L)
-      [] e[1] \in {"let", "letseq"} -> (\E i \in 1..Len(e[2]) : FreeJump(e[2][i][2], L)) \/ FreeJumpSeq(e[3], L)
-      [] e[1] = "cond" -> (\E i \in 1..Len(e[2]) : FreeJump(e[2][i][1], L) \/ FreeJump(e[2][i][2], L)) \/ FreeJump(e[3], L)
-      [] e[1] = "for" -> LET L2 == L \cup {"", e[2]} IN
-                         FreeJump(e[3], L2) \/ FreeJump(e[4], L2) \/ FreeJump(e[5], L2) \/ FreeJumpSeq(e[6], L2)
-      [] e[1] = "fn" -> FreeJumpSeq(e[4], L)
-      [] e[1] = "defn" -> FreeJumpSeq(e[5], L)
-      [] e[1] = "call" -> FALSE      \* arguments are compiled when the call runs (EvArgs leaves jumps there undefined)
-      [] e[1] \in {"assert", "eval"} -> FALSE
-      [] OTHER -> FALSE
-
 (* a program is a sequence of top-level forms evaluated in the global frame *)
-RunProgram(forms, fuel, failAt) ==
-    IF FreeJumpSeq(forms, {}) THEN ErrR("compile", InitState(fuel, failAt))
-    ELSE LET r == EvSeq(forms, 1, 1, InitState(fuel, failAt)) IN
+RunProgramD(forms, fuel, failAt, devs) ==      \* devs: the named deviations to reproduce ({} = the reference semantics)
+    LET s0 == [InitState(fuel, failAt) EXCEPT !.devs = devs] IN
+    IF FreeJumpSeq(forms, {}) THEN ErrR("compile", s0)
+    ELSE LET r == EvSeq(forms, 1, 1, s0) IN
          IF r.k \in {"brk", "cnt"} THEN ErrR("break-outside-loop", r.s) ELSE r
+RunProgram(forms, fuel, failAt) == RunProgramD(forms, fuel, failAt, {})
 
 (* the observable outcome: value (closures opaque), or error, with the effects *)
 RECURSIVE Obs(_)
